@@ -109,6 +109,17 @@ def class_scripts(group, outdir):
             vflib.write_ndjson(os.path.join(outdir, "beh_%s_cls_%s_%s.ndjson" % (group, c, cls)), lines)
 
 
+def slow_handshake_script(outdir):
+    """Hand-made behaviour of Transport.tla for G_tcp_eph: the TCP handshake completes only on the kernel's SYN retransmission
+    (1 s; the peer's accept queue is full at first), then the peer reads the request and stalls. One tick = 400 ms, T = 3 ticks:
+    the connection is established in tick 2, and the call must still time out in tick 3 of its dial (one absolute deadline)."""
+    os.makedirs(outdir, exist_ok=True)
+    g = "G_tcp_eph"
+    hdr = {"a": "Cfg", "T": 3, "fixed": False, "group": g, "tick_ms": 400, "calls": GROUP_CALLS[g]}
+    lines = [hdr, {"a": "Enter", "c": "a", "t": 0}, {"a": "Send", "c": "a", "t": 0, "plan": [["slowstall", 2]]}]
+    vflib.write_ndjson(os.path.join(outdir, "beh_%s_slowhandshake.ndjson" % g), lines)
+
+
 def fault_then_next_scripts(outdir):
     """Hand-made behaviours of Transport.tla for G_mixed_fixed (a: bcast S1, b: udp set-address S2, c: tcp status S3 on one
     fixed bind port): the TCP call meets each peer fault in turn, and the calls that queue behind it must be served
@@ -198,6 +209,8 @@ def run_groups(v, groups, n, tick=50, race=False, parts_fixed=6, classify=None, 
         list(ex.map(lambda g: flood_scripts(g, sdir, n) if g.startswith("G_flood") else generate(g, n, vflib.seed() + 17, sdir), groups))
     if "G_mixed_fixed" in groups:
         fault_then_next_scripts(sdir)
+    if "G_tcp_eph" in groups:
+        slow_handshake_script(sdir)
     if lengths:
         for g in groups:
             if g in ("G_bcast_eph", "G_udp_eph", "G_tcp_eph"):
